@@ -12,9 +12,9 @@ open Sq Sq.Inv
 
 /-- one machine step, stated generically: under the configuration invariant with "no mutator is a value" and "no compound
     assignment is pending", only scope dictionaries change -/
-theorem step_changes_only_scopes {Pc : List Op → Op → Nat → Prop} {Pb Pq : String → Prop} {Po : Op → Prop} {Pn : Name → Prop}
+theorem step_changes_only_scopes {Pc : List Op → Op → Nat → Prop} {Pb Pq : String → Prop} {Pr : Nat → Prop} {Po : Op → Prop} {Pn : Name → Prop}
     {Psh : Prop} (hok : OpsOK Pc Pb Po Pn Psh) (hb : ∀ n, Pb n → n ∉ mutatorNames) (hsh : ¬ Psh) (budgets : List Nat) (c : Core)
-    (hc : CorePDg Pc Pb Pq Po Pn Psh c) : HPres c.w (stepCore budgets c).w :=
+    (hc : CorePDg Pc Pb Pq Pr Po Pn Psh c) : HPres c.w (stepCore budgets c).w :=
   (step_hp hok hb hsh budgets c hc).toHPres
 
 /-- **a program without mutators changes no host object**, at any step of its evaluation -/
